@@ -48,6 +48,9 @@ def input_prefix():
     stacks += POOL
     stacks += ["%s %s" % (a, b) for a in POOL for b in POOL]
     stacks += ["%s %s %s" % (a, b, c) for a, b, c in [("1", '"ab"', "[1, 2]"), ("[1, 2]", "1", "1"), ('"ab"', '"ab"', "0"), ("0", "[]", '"ab"')]]
+    # values of every type that carry a non-zero position (second and third element of a sequence), alone and below another value
+    for lst in ('[{1}, {2}, {3}]', '["a", "b", "c"]', "[[1], [2], []]", "[5, 6, 7]", "[T_STR, true, 0x10]"):
+        stacks += ["%s elem ?1" % lst, "%s elem ?2" % lst, "%s elem ?2 1" % lst]
     return "(" + ", ".join(stacks) + ")", len(stacks)
 
 
